@@ -177,6 +177,10 @@ mod libflavors {
     impl FungibleToken for RwaLib {
         type ContractType = stellar_tokens::rwa::RWA;
     }
+    // the holder-facing burns through the DEFAULT methods of the trait (the RWA type has a supervisory `burn` of
+    // its own, without authorization: the defaults must never dispatch to it)
+    #[contractimpl(contracttrait)]
+    impl FungibleBurnable for RwaLib {}
     #[allow(dead_code)]
     fn _unused(_: MuxedAddress, _: SString) {}
 }
@@ -300,10 +304,10 @@ impl Sim {
     }
     fn supports(&self, kind: &str) -> bool {
         match self.flavor {
-            Flavor::Base | Flavor::Pausable | Flavor::VotesLib | Flavor::AllowLib | Flavor::BlockLib => true,
+            Flavor::Base | Flavor::Pausable | Flavor::VotesLib | Flavor::AllowLib | Flavor::BlockLib | Flavor::RwaLib => true,
             Flavor::AllowList => kind != "mint",
             Flavor::BlockList => !matches!(kind, "mint" | "burn" | "burn_from"),
-            Flavor::Votes | Flavor::Capped | Flavor::RwaLib => !matches!(kind, "burn" | "burn_from"),
+            Flavor::Votes | Flavor::Capped => !matches!(kind, "burn" | "burn_from"),
         }
     }
     /// getters; a getter that traps is shown as `?` (the monitor then flags the observation)
